@@ -1278,7 +1278,10 @@ class Function(Ring):
     def vecsym(self):
         return Function.pushforward(algopy.vecsym, [self])
 
-    def reshape(self, shape):
+    def reshape(self, *shape):
+        # x.reshape((2,3)) and x.reshape(2,3), as ndarray.reshape
+        if len(shape) == 1:
+            shape = shape[0]
         return Function.pushforward(algopy.reshape, [self, shape])
 
     T = property(transpose)
